@@ -8,7 +8,7 @@
 //
 //	cb.new <ec|er|sr> <retryTimeoutMs> <minRequestAmount> <threshold: int for ec, f:<bits> for er/sr> <probeNum> <maxRtMs>
 //	rule <id> <retryTimeoutMs> <minRequestAmount> <threshold> <probeNum> <maxRtMs>      (rule table; cb.new is rule 0)
-//	thread <tid> <item>+        item = tp | tpb | c:<rt>:ok | c:<rt>:err
+//	thread <tid> <item>+        item = tp | tpb | tpn (no SentinelEntry in the context) | c:<rt>:ok | c:<rt>:err
 //	                                 | rd:<retryTimeoutMs>:<minReq>:<threshold>:<probeNum>:<maxRtMs>   LoadRules([that rule])
 //	                                 | rl:<e>,<e>,…   LoadRulesOfResource(res, rules); e = rule id | x (a pass-through rule of a
 //	                                   custom strategy whose generator yields at cb.x.rebuild: a yield point INSIDE the rebuild)
@@ -48,6 +48,7 @@ func getBreakersOfResource(resource string) []cb.CircuitBreaker
 type call struct {
 	tryPass bool
 	blocked bool
+	noEntry bool // the context carries no SentinelEntry (base.NewEmptyEntryContext() as it comes)
 	rt      uint64
 	err     bool
 	reload  []*cb.Rule // non-nil: a rule load, parked at the harness's own yield point cb.x.reload before
@@ -251,6 +252,8 @@ func (it *Interp) parseCall(s string) (call, bool) {
 		return call{tryPass: true}, true
 	case len(p) == 1 && p[0] == "tpb":
 		return call{tryPass: true, blocked: true}, true
+	case len(p) == 1 && p[0] == "tpn":
+		return call{tryPass: true, noEntry: true}, true
 	case len(p) == 3 && p[0] == "c" && (p[2] == "ok" || p[2] == "err"):
 		rt, err := strconv.ParseUint(p[1], 10, 64)
 		if err != nil {
@@ -336,8 +339,15 @@ func (it *Interp) worker(tid int) func() {
 				it.snaps[tid] = append(it.snaps[tid], it.list())
 				ctx := base.NewEmptyEntryContext()
 				ctx.Resource = it.rw
-				e := base.NewSentinelEntry(ctx, it.rw, nil)
-				ctx.SetEntry(e)
+				if tid%2 == 0 {
+					// as a context from the slot chain's pool comes: with a "pass" result object that Slot.Check resets in place
+					ctx.RuleCheckResult = base.NewTokenResultPass()
+				}
+				var e *base.SentinelEntry
+				if !c.noEntry {
+					e = base.NewSentinelEntry(ctx, it.rw, nil)
+					ctx.SetEntry(e)
+				}
 				r := cb.DefaultSlot.Check(ctx)
 				blocked := r != nil && r.IsBlocked()
 				it.results[tid] = append(it.results[tid], !blocked)
@@ -350,7 +360,9 @@ func (it *Interp) worker(tid int) func() {
 				} else {
 					ctx.RuleCheckResult = nil
 				}
-				e.Exit()
+				if e != nil {
+					e.Exit()
+				}
 			default:
 				it.snaps[tid] = append(it.snaps[tid], it.list())
 				ctx := base.NewEmptyEntryContext()
